@@ -8,6 +8,27 @@ CHECKS = {
  "C01": ("exploration", "property-based testing against a sorted-set reference model (proptest, regime-directed generators) + complete small-scope enumeration",
          "Every query of the plain bitvector is compared with an independent sorted-set model on generated bit sequences that are directed at the internal regimes (short/long select superblocks for ones and zeros, partial words/blocks, many superblocks), built through 9 public routes; every bit string up to length 12 (16 thorough) is enumerated with every argument. Held-on-everything-explored, not a proof.",
          "Trusts the reference model (binary search on a sorted position list) and rustc; vectors limited to 140k bits quick / 2M bits thorough; above 20k bits arguments are structural edges + sampled.", "DESIGN.md §3 C01"),
+ "C09": ("exploration", "property-based testing with extreme-argument generators against the documented out-of-range answers and the reference models, three-type differential, in two arithmetic configurations with per-case process isolation",
+         "Every query of the three bitvector types, of huge sparse / run-length vectors, of the wavelet matrix and its core is asked at {0,1,len-1,len,len+1,2len,count+-1,2^63,MAX-1,MAX,...} and must give the documented answer without panicking; nth/nth_back beyond the remainder must exhaust fresh, partly consumed and positioned iterators; constructors must accept exactly the valid widths. Run with overflow checks on (a wrapped addition is a panic) and with release arithmetic + std unsafe-precondition checks (a wrapped addition is a wrong answer or an abort), each case in a worker process.",
+         "Trusts the reference models; get() is not called out of range (documented as may-panic); allocation-sizing arguments are kept small.", "DESIGN.md §3 C09"),
+ "C10": ("exploration", "model-based property testing of iterator call histories against a VecDeque of the reference sequence + complete enumeration of short call sequences on all tiny bit strings",
+         "35 iterator kinds (all three bitvector types incl. positioned iterators, multisets, integer vectors incl. mapped, wavelet matrix) are driven with generated histories of next/next_back/nth/nth_back/clone; every return value and every len() is compared with a deque model, the rest is drained, exhaustion is re-checked. All 5461 sequences of length <= 6 on all 127 bit strings of length <= 6 for the double-ended iterators.",
+         "Structures are small so that every iterator is drained completely; back calls only where DoubleEndedIterator is implemented.", "DESIGN.md §3 C10"),
+ "C11": ("exploration", "metamorphic/differential property testing: conversion chains and builder decompositions must all give equal, byte-identical structures + enumeration of all tiny strings x type pairs",
+         "For generated bit sequences, the end of every conversion chain (From / copy_bit_vec, length 1..3) must hold the source's bits and be == and byte-identical to the target type's own builder output built by another route; all run-length builder decompositions of one run list must agree.",
+         "Sets only (multisets not claimed); plain bitvectors compared without supports.", "DESIGN.md §3 C11"),
+ "C12": ("exploration", "differential property testing of the file writers against the in-memory serialization over generated widths, buffer sizes, push histories and endings",
+         "Files left by IntVectorWriter / RawVectorWriter for generated (width, buffer size incl. 0 / sub-item / exact-data, push and extend history, ending in close / close twice / drop / close then drop) must be byte-identical to serializing the equivalent in-memory vector; len() tracks pushes; second close is a no-op.",
+         "A raw writer with a parent header is closed through close_with_header as a parent would; flush bookkeeping only labels classes.", "DESIGN.md §3 C12"),
+ "C15": ("exploration", "property-based testing against a sorted-Vec multiset model + complete small-scope enumeration + accept/reject differential for try_from_iter",
+         "Multiset sparse vectors (duplicates at 0, at the last position, at bucket edges, long duplicate runs, overfull lists, huge universes) built by four routes are compared with a sorted-Vec model for every present-value query and for the set-bit and bit iterators in both directions and generated interleavings; try_from_iter must accept exactly the non-decreasing sequences.",
+         "Zero-side queries are not asserted (documented as not working for multisets).", "DESIGN.md §3 C15"),
+ "C16": ("exploration", "model-based (stateful) property testing of builder call histories against model state machines, with a shadow builder that only sees accepted calls",
+         "Generated histories of valid and invalid calls on SparseBuilder and RLBuilder are interpreted against models: acceptance must match, every observer must equal the model after every call, conversion succeeds iff allowed, and the resulting vector must hold exactly the accepted positions and equal the vector of a shadow builder that never saw the rejected calls.",
+         "Unsafe *_unchecked calls only inside their contracts; try_set(start<len, 0) may answer either way.", "DESIGN.md §3 C16"),
+ "C18": ("exploration", "property-based testing of map/drop cycles with a process-level monitor (/proc/self/maps, std unsafe-precondition checks) in per-shard worker processes",
+         "For generated file sizes (0, sub-page, page multiples +-8, not divisible by 8, missing, a directory), modes and cycle counts: refusal where documented, the slice equals the file over its whole length, /proc/self/maps lists the mapping while alive and no byte of it after drop, writes through a mutable map reach the file.",
+         "Linux /proc only; OS refusals provoked with an empty file and a directory.", "DESIGN.md §3 C18"),
  "C13": ("exploration", "round-trip/differential property testing of mapped views against loaded values over generated multi-structure files, with enumeration of bad offsets and element-granular truncations",
          "Files of 1..6 concatenated mappable structures (both mapping modes) are mapped structure by structure: content must equal the in-memory value through every accessor, views must tile the file exactly, six out-of-file offsets per structure must be refused with Err (not a panic), and for every truncation the cut structure must be refused while earlier ones still map.",
          "Views are only requested at structure starts or outside the file; large files are truncated around structure boundaries and at generated points.", "DESIGN.md §3 C13"),
